@@ -11,6 +11,12 @@
                         whether a valid candidate ends on the active chain; the delivery skips the hash-vs-target
                         comparison; the delivery stores blocks (0 for a template check)
   answer: accept|reject[:classes] in=<candidate on the active chain> h=<best height> st=<candidate stored (HaveBlock)>
+  C01 rblk <mode> <recipe> <net> <csv> <seg> <tap> <now> <S> <scriptbits> <block hex> <ancestor block hex, genesis first>…
+       the description is DERIVED from the raw bytes through the sibling models (C08, C09, C13, C03, C14)
+       net  bip34H,bip65H,bip66H,bip94,maturity,subsidyInterval,powLimit(hex),powLimitBits(hex),noRetarget,reduceMinDiff,
+            minDiffReductionTime,targetTimespan,targetTimePerBlock,adjFactor,vbWindow,vbThreshold,bip34Hash(hex|-)
+       dep  bit:start|-:timeout|-:minHeight:customThreshold:alwaysActive
+       scriptbits  per tx "/"-separated, per input "failsAlways.failsUnder" ","-separated, ~ = no inputs
   C01 api <mode> <recipe> <same facts>   the stand-alone exported checks on the candidate, nothing delivered
   C01 par <blk|api case> | <case> | …    several cases run concurrently on separate chain instances
     tx version;lockTime;strippedSize;dupInputs;script0Len;legacySigops;hasWitness;overwrites;outs;ins
@@ -20,6 +26,7 @@
 import BV.Common.Hex
 import BV.C09.Model
 import BV.C01.Model
+import BV.C01.Raw
 namespace BV.C01.Driver
 open BV.Hex
 
@@ -169,7 +176,61 @@ def splitBar : List String → List (List String)
     | [] => [[t]]
     | g :: gs => if t == "|" then [] :: g :: gs else (t :: g) :: gs
 
+/-! ### raw lines: the description is derived through the sibling models (BV.C01.Raw) -/
+
+def pOptInt? (s : String) : Option (Option Int) := if s == "-" then some none else s.toInt?.map some
+
+def pDep? (s : String) : Option BV.C14.Dep :=
+  match s.splitOn ":" with
+  | [bit, st, to, mh, ct, aa] => do
+    pure ⟨← bit.toNat?, ← pOptInt? st, ← pOptInt? to, ← mh.toNat?, ← ct.toNat?, ← aa.toNat?⟩
+  | _ => none
+
+def pNet? (s : String) (d1 d2 d3 : String) : Option Raw.Net :=
+  match s.splitOn "," with
+  | [a, b, c, b94, mat, si, pl, plb, nr, rmd, mdrt, tts, ttpb, af, vw, vt, bh] => do
+    let pow : BV.C09.Params := ⟨((← hexToNat? pl : Nat) : Int), ← hexToNat? plb, ← pBool? nr, ← pBool? rmd,
+      ← mdrt.toInt?, ← tts.toInt?, ← ttpb.toInt?, ← af.toInt?, ← pBool? b94⟩
+    pure { bip34H := ← a.toInt?, bip65H := ← b.toInt?, bip66H := ← c.toInt?, vb := ⟨← vw.toNat?, ← vt.toNat?⟩,
+           csv := ← pDep? d1, seg := ← pDep? d2, tap := ← pDep? d3, bip94 := ← pBool? b94, maturity := ← mat.toInt?,
+           subsidyInterval := ← si.toInt?, pow := pow,
+           bip34Hash := ← (if bh == "-" then some none else (hexToList? bh).map some) }
+  | _ => none
+
+def pBit? (s : String) : Option (Bool × Nat) :=
+  match s.splitOn "." with
+  | [a, b] => do pure (← pBool? a, ← b.toNat?)
+  | _ => none
+
+def pBits? (s : String) : Option (List (List (Bool × Nat))) :=
+  (s.splitOn "/").mapM (fun g => pList? "," pBit? g)
+
+def handleRaw : List String → String
+  | mode :: _recipe :: net :: d1 :: d2 :: d3 :: now :: sc :: bits :: blk :: anc =>
+    if mode != "VC" && mode != "V" then "bad-op" else
+    match pNet? net d1 d2 d3, now.toInt?, pScen? sc, pBits? bits, hexToList? blk, anc.mapM hexToList? with
+    | some n, some now, some sc, some bits, some blk, some anc =>
+      match Raw.derive ⟨n, now, anc, blk, bits⟩ with
+      | some d => answer mode d sc
+      | none => "undecodable"
+    | _, _, _, _, _, _ => "bad-op"
+  | _ => "bad-op"
+
+/-- debugging aid: the derived per-transaction sigop facts -/
+def handleRawDbg : List String → String
+  | _mode :: _recipe :: net :: d1 :: d2 :: d3 :: now :: _sc :: bits :: blk :: anc =>
+    match pNet? net d1 d2 d3, now.toInt?, pBits? bits, hexToList? blk, anc.mapM hexToList? with
+    | some n, some now, some bits, some blk, some anc =>
+      match Raw.derive ⟨n, now, anc, blk, bits⟩ with
+      | some d => s!"cost={d.sigopCost} p2sh={d.p2sh} seg={d.segwit} " ++ String.intercalate " " (d.B.txs.map (fun t =>
+          s!"[{t.legacySigops};{t.ins.map (·.p2shSigops)};{t.ins.map (·.witSigops)};{t.ins.map (·.avail)}]"))
+      | none => "undecodable"
+    | _, _, _, _, _ => "bad-op"
+  | _ => "bad-op"
+
 def handleOne : List String → String
+  | "rdbg" :: rest => handleRawDbg rest
+  | "rblk" :: rest => handleRaw rest
   | "blk" :: mode :: _recipe :: rest =>
     if mode != "VC" && mode != "V" then "bad-op" else
     match parseDesc? rest with
